@@ -530,6 +530,33 @@ func hostileStrings(rng *rand.Rand) []*jnode {
 	return out
 }
 
+// keyNameFamily: the registered type names, all their prefixes, every zero-padding
+// width, and extensions, as public key values (a decoder must not let a value that
+// merely spells a type name through the prefix lookup).
+func keyNameFamily(rng *rand.Rand) [][]byte {
+	var out [][]byte
+	for _, name := range []string{"ed25519", "bls-ms"} {
+		for n := 1; n <= len(name); n++ {
+			out = append(out, []byte(name[:n]))
+		}
+		for w := len(name) + 1; w <= 10; w++ { // name zero-padded to every width around the 8-byte prefix
+			p := make([]byte, w)
+			copy(p, name)
+			out = append(out, p)
+		}
+		out = append(out,
+			append([]byte(name), rbytes(rng, 1)...),  // name directly followed by payload, no padding
+			append([]byte(name), rbytes(rng, 32)...), // same, 32-byte payload
+			append(keyPrefix(name), rbytes(rng, 1)...),
+			append(keyPrefix(name), rbytes(rng, 2)...),
+			append(append([]byte(name), 0), rbytes(rng, 32)...),    // one padding byte short/long
+			append(append([]byte{0}, name...), rbytes(rng, 32)...), // leading zero
+			append([]byte(strings.ToUpper(name)+"\x00"), rbytes(rng, 32)...),
+		)
+	}
+	return out
+}
+
 var hostileNumbers = []string{"0", "-1", "-0", "1", "100000", "4294967295", "4294967296", "18446744073709551615", "18446744073709551616",
 	"1.5", "1e3", "1e400", "1E-400", "9223372036854775808", "00", "0x10", "+1", "NaN"}
 
@@ -542,6 +569,7 @@ func (c *totCtx) mutateTree(kind int, enc []byte, rng *rand.Rand, huge bool) {
 	var slots []slot
 	root.slots("$", &slots)
 	hs := hostileStrings(rng)
+	knf := keyNameFamily(rng)
 	try := func(s slot, desc string, repl *jnode) {
 		old := s.parent.vals[s.idx]
 		s.parent.vals[s.idx] = repl
@@ -604,6 +632,12 @@ func (c *totCtx) mutateTree(kind int, enc []byte, rng *rand.Rand, huge bool) {
 		case 's':
 			for _, h := range hs {
 				try(s, fmt.Sprintf("%q", h.text), h)
+			}
+			if strings.HasSuffix(s.path, "PubKey") { // .PubKey of validators, .ProposerPubKey
+				for _, kb := range knf {
+					try(s, fmt.Sprintf("key bytes %q", kb), str(b64(kb)))
+				}
+				c.cnt["tot.key-field-slots"]++
 			}
 		case 'n':
 			for _, h := range hostileNumbers {
@@ -860,6 +894,9 @@ func (c *totCtx) registryInputs(rng *rand.Rand) {
 		b := append(keyPrefix("bls-ms"), rbytes(rng, 8)...)
 		try("prefix of a bls-ms encoding", append([]byte{}, b[:n]...))
 	}
+	for _, kb := range keyNameFamily(rng) {
+		try("registered type name family", kb)
+	}
 	for j := 0; j < 16; j++ {
 		try("bls-ms prefix + random payload", append(keyPrefix("bls-ms"), rbytes(rng, 90+int(rng.UintN(12)))...))
 		try("random bytes", rbytes(rng, int(rng.UintN(200))))
@@ -874,7 +911,7 @@ func TestVerif_C14_totality(t *testing.T) {
 	defer r.Finish()
 	r.SetRule("Totality: per case six valid encodings (Header, ProposedHeader, CommittedHeader, prevote, precommit with 0-3 validators; every 32nd case up to 40) are " +
 		"(a) truncated at every byte (<= 4 KiB, else 256 random cuts), (b) hit by 96 single/multi bit flips and 32 byte edits, (c) mutated at every JSON position: null, wrong type, deleted, duplicated (same/null/empty/lower-case key), " +
-		"every string replaced by empty, invalid and 1-9-byte base64 and by short/odd ed25519 and bls-ms key encodings, every number by boundary/overflow/float literals, every array by degenerate arrays and (one encoding of every 16th case) 10^5 copies of an element; " +
+		"every string replaced by empty, invalid and 1-9-byte base64 and by short/odd ed25519 and bls-ms key encodings (every public-key field additionally by the registered type names, all their prefixes, every zero-padding width and unpadded extensions), every number by boundary/overflow/float literals, every array by degenerate arrays and (one encoding of every 16th case) 10^5 copies of an element; " +
 		"message kinds are also fed through a ConsensusMessage envelope; (d) uniform random bytes, JSON token soup and schema-guided random documents go to all six Unmarshal methods; (e) gcrypto.Registry.Unmarshal gets every length 0-16 and random inputs. " +
 		"Every call runs under recover; a panic is a violation keyed by panic site. Non-trivial = distinct (case, mutation class, method, outcome) where the decoder got past JSON parsing (value returned, conversion error, or panic).")
 	mc, reg := newCodec()
